@@ -7,7 +7,7 @@
 
   * `put_refines`, `delete_refines`, `update_refines`: a write that succeeds changes the abstract
     store at exactly one point, (its table, the key string of its own key attributes), to exactly
-    the specified value (`specSet`): the item put, nothing, the updater's result on the stored item
+    the specified value (`specSet`; `put_then_get`: a GetItem after a successful PutItem returns the item that was put): the item put, nothing, the updater's result on the stored item
     (or on the key attributes when nothing was stored); DeleteItem's old item is what was stored;
   * `failed_write_refines`: a write that fails (any error or the documented panic) leaves the
     abstract store as it was;
@@ -21,6 +21,7 @@
 import Minidyn.Props.Reach
 import Minidyn.Props.C08
 import Minidyn.Props.C18
+import Minidyn.Props.C05Seq
 namespace Minidyn.Props.Refine
 open Minidyn Minidyn.Client Minidyn.Table Minidyn.Props.C01
 
@@ -191,6 +192,70 @@ theorem put_state_of_nonok (c : Client) (tb : Bytes) (item : Item) (c' : Client)
         cases hp : t.put (matcher c tb {}) item none with
         | error e => rfl
         | ok t' => simp only [hp, Prod.mk.injEq] at h; exact absurd h.2.symm hne
+
+/-! ### read your writes -/
+
+theorem absC_specSet_self (a : Bytes → Bytes → Option Item) (tb k : Bytes) (v : Option Item) : specSet a tb k v tb k = v := by
+  simp [specSet]
+
+theorem putItem_failure_none (c c' : Client) (tb : Bytes) (item : Item) (cond : Option Bytes) (ex : Exprs)
+    (h : putItem c tb item cond ex = (c', .ok)) : c'.failure = none ∧ c'.sdk = c.sdk := by
+  unfold putItem at h
+  cases hf : c.failure with
+  | some f => rw [hf] at h; cases f <;> simp [failureErr] at h
+  | none =>
+    rw [hf] at h
+    simp only at h
+    by_cases hv : (!validateExprAttrs ex [cond.getD []]) = true
+    · simp [hv] at h
+    · simp only [hv, Bool.false_eq_true, if_false, withTable] at h
+      cases ht : alookup tb c.tables with
+      | none => simp [ht] at h
+      | some t =>
+        simp only [ht] at h
+        cases hp : t.put (matcher c tb ex) item cond with
+        | error e => simp only [hp] at h; cases e <;> simp [writeErrOut] at h <;> (try split at h) <;> simp at h
+        | ok t' =>
+          simp only [hp, Prod.mk.injEq] at h
+          obtain ⟨rfl, _⟩ := h
+          exact ⟨hf, rfl⟩
+
+/-- **GetItem after a successful PutItem returns the item that was put** (through the client's output mapper) -/
+theorem put_then_get (c c' : Client) (tb : Bytes) (item : Item) (cond : Option Bytes) (ex : Exprs)
+    (hinv : Reach.ClientInv c) (h : putItem c tb item cond ex = (c', .ok)) :
+    Client.getItem c' tb item = (c', .item (some (outItem c.sdk item))) := by
+  obtain ⟨t, key, ht, hk, hspec⟩ := put_refines c c' tb item cond ex hinv h
+  obtain ⟨hf, hsdk⟩ := putItem_failure_none c c' tb item cond ex h
+  -- the table after the put: same schema and declared types, so the same key string
+  have hstored : absC c' tb key = some item := by rw [hspec]; exact absC_specSet_self _ _ _ _
+  unfold absC at hstored
+  cases ht' : alookup tb c'.tables with
+  | none => rw [ht'] at hstored; cases hstored
+  | some t' =>
+    -- the put keeps schema and attribute types
+    have hshape : t'.schema = t.schema ∧ t'.attrs = t.attrs := by
+      unfold putItem at h
+      rw [show c.failure = none from by
+        cases hf0 : c.failure with
+        | none => rfl
+        | some f => rw [hf0] at h; cases f <;> simp [failureErr] at h] at h
+      simp only at h
+      by_cases hv : (!validateExprAttrs ex [cond.getD []]) = true
+      · simp [hv] at h
+      · simp only [hv, Bool.false_eq_true, if_false, withTable, ht] at h
+        cases hp : t.put (matcher c tb ex) item cond with
+        | error e => simp only [hp] at h; cases e <;> simp [writeErrOut] at h <;> (try split at h) <;> simp at h
+        | ok t2 =>
+          simp only [hp, Prod.mk.injEq] at h
+          obtain ⟨rfl, _⟩ := h
+          have : alookup tb (setTable c tb t2).tables = some t2 := alookup_ainsert_self _ _ _
+          rw [this] at ht'; cases ht'
+          have hs := C05Seq.sameShape_put hp
+          exact ⟨hs.schema, hs.attrs⟩
+    have hk' : Key.getKey t'.schema t'.attrs item = .ok key := by rw [hshape.1, hshape.2]; exact hk
+    rw [get_refines c' tb item t' key hf ht' hk', hsdk]
+    have : absC c' tb key = some item := by unfold absC; rw [ht']; rw [ht'] at hstored; exact hstored
+    rw [this]; rfl
 
 /-! ### along a history -/
 
